@@ -236,6 +236,8 @@ let exec (c : sx) : sx = match c with
   | L [A "eqbool"; a; b] -> of_bool (eq_obj_pybool (to_obj a) (to_bool b))
   | L [A "ctl"; k; f] -> of_result of_nats (ctl_modelcheck (to_kripke k) (to_form f))
   | L [A "ltl"; k; f] -> of_result of_nats (ltl_modelcheck (to_kripke k) (to_form f))
+  | L [A "ctlmemo"; k; f] -> of_result of_nats (ctl_modelcheck_memo (to_kripke k) (to_form f))
+  | L [A "ltlprint"; k; f] -> of_result of_nats (ltl_modelcheck_print (to_kripke k) (to_form f))
   | L [A "ctls"; l; k; f] -> of_result of_nats (ctls_modelcheck_in (to_lang l) (to_kripke k) (to_form f))
   | L [A "ctlf"; k; f; fs] -> of_result of_nats (ctl_modelcheck_fair (to_kripke k) (to_form f) (to_list to_nats fs))
   | L [A "ltlf"; k; f; fs] -> of_result of_nats (ltl_modelcheck_fair (to_kripke k) (to_form f) (to_list to_nats fs))
